@@ -132,13 +132,15 @@ def main(argv):
     tables_json = os.path.join(B, "C08.tables.json")
     bindings_json = os.path.join(B, "C08.bindings.json")
 
+    deferred = []
     # ---- 1. translator ---------------------------------------------------------------------------
     rc, out = common.translate("sandbox", "SandboxTables.v", extra_args=["--json", tables_json])
     translator_ok = rc == 0
     if not translator_ok:
         c.log("translator failed:\n" + out[-2000:])
-        c.violation({"kind": "translator: the source no longer has the shape the sandbox-table translator understands",
-                     "log": out[-3000:], "note": "the tables the theorems quantify over could not be regenerated"}, no_input=True, tag="translator")
+        # reported after the search, so that a concrete failing script (if the harness finds one) comes first
+        deferred.append(({"kind": "translator: the source no longer has the shape the sandbox-table translator understands",
+                          "log": out[-3000:], "note": "the tables the theorems quantify over could not be regenerated"}, "translator"))
     else:
         c.log(out.strip().split("\n")[0])
     # after a translator failure a tables file of an earlier run is only good for telling the harness which names to call
@@ -224,12 +226,26 @@ def main(argv):
         for f in rt.get("effect_cases") or []:
             meta[str(f["id"])] = f
     n = 0
+    n_cmd = 0
+    cmd_fail = []
+    cmd_model, labelled = {}, []
     seen_effects = {}
     if cases:
         rows = iter_joined(cases, mout) if mout else ((l.split("\t")[0], l.split("\t")[1], l.rstrip("\n").split("\t")[2], None, None) for l in open(cases))
         for cid, inp, impl, model, spec in rows:
             n += 1
             cfg = inp.split(" ", 1)[0]
+            if cfg == "cmdline":
+                # the command line of cmd/zygo: observed kind of interpreter vs Model/Cmdline.v
+                n_cmd += 1
+                cmd_model[inp.split(" :: zygo ", 1)[-1]] = model
+                if spec == "sandboxed" and impl != "sandboxed":
+                    cmd_fail.append({"command_line": inp.split(" :: ", 1)[-1], "tokens": inp.split(" :: ", 1)[0][8:], "observed": impl, "model": model, "specification": spec})
+                elif model is not None and impl != model:
+                    corr_fail.append({"input": inp, "observed": impl, "model_of_the_command_line": model})
+                continue
+            if " :: zygo " in inp and " ;; " in inp:
+                labelled.append((inp.split(" :: zygo ", 1)[1].split(" ;; ", 1)[0], cfg))
             iset = set() if impl == "-" else set(impl.split(","))
             for e in iset:
                 seen_effects.setdefault(cfg, set()).add(e)
@@ -248,6 +264,12 @@ def main(argv):
                                   "abs": m.get("abs"), "argv": m.get("argv"), "detail": m.get("detail"), "class": m.get("class")})
             elif mset is not None and not iset <= mset:
                 corr_fail.append({"input": inp, "observed_effects": sorted(iset), "predicted_by_tables": raw_pred})
+    # the harness labels the canary runs of a command line "bin" (sandboxed) or "full" (control): that label
+    # must be the Coq model's verdict for the command line
+    for argv, cfg in labelled:
+        mo = cmd_model.get(argv)
+        if mo is not None and (cfg == "bin") != (mo == "sandboxed"):
+            corr_fail.append({"command_line": argv, "harness_label": cfg, "model_of_the_command_line": mo})
     c.coverage["compared"] = n
     c.coverage["traces_validated_against_impl"] = n if mout else 0
 
@@ -270,6 +292,9 @@ def main(argv):
         for x in fs:
             reported |= names_in(x["entry"])
 
+    for obj, tag in deferred:
+        c.violation(obj, no_input=True, tag=tag)
+
     # impure table entries without a canary-confirmed effect
     for e in new_impure:
         if e["name"] in reported:
@@ -288,6 +313,25 @@ def main(argv):
         elif c.proof_break and new_impure:
             c.notes.append("proof break explained by the new impure entries: " + json.dumps(c.proof_break)[:300])
 
+    # command lines: whatever else is on the command line, a run with a sandbox flag must bind the sandbox's names
+    cmd_diffs = []
+    if rt:
+        cd = rt.get("cmdline_name_diffs") or []
+        for d in cd:
+            if not d.get("probe_ok"):
+                cmd_diffs.append("bin: the name probe did not complete under `zygo %s`" % d["argv"])
+            for nme in d.get("unexpected") or []:
+                cmd_diffs.append("bin: %r is defined under `zygo %s` but not bound in a sandboxed interpreter" % (nme, d["argv"]))
+            for nme in d.get("missing") or []:
+                cmd_diffs.append("bin: %r is bound in a sandboxed interpreter but not defined under `zygo %s`" % (nme, d["argv"]))
+        c.coverage["cmdline_shapes_with_name_differences"] = len(cd)
+        c.coverage["command_lines_compared_with_model"] = n_cmd
+
+        if cmd_diffs or cmd_fail:
+            c.violation({"kind": "cmd/zygo run with a sandbox flag does not run the script in a sandboxed interpreter (specification: Model/Cmdline.v sandbox_flag_decides; observed through the names the interpreter binds)",
+                         "command_lines": cmd_fail[:40], "differences": cmd_diffs[:40], "count": len(cmd_diffs)},
+                        no_input=True, tag="cmdline")
+
     # names: translator's view vs the real interpreters
     if rt and tabs:
         diffs = []
@@ -304,15 +348,6 @@ def main(argv):
             for nme in sorted(expect - got):
                 diffs.append("bin: %r is in the generated bindings but not defined in `zygo -sandbox`" % nme)
             c.coverage["binary_names_defined"] = len(got)
-        cd = rt.get("cmdline_name_diffs") or []
-        for d in cd:
-            if not d.get("probe_ok"):
-                diffs.append("bin: the name probe did not complete under `zygo %s`" % d["argv"])
-            for nme in d.get("unexpected") or []:
-                diffs.append("bin: %r is defined under `zygo %s` but not bound in a sandboxed interpreter" % (nme, d["argv"]))
-            for nme in d.get("missing") or []:
-                diffs.append("bin: %r is bound in a sandboxed interpreter but not defined under `zygo %s`" % (nme, d["argv"]))
-        c.coverage["cmdline_shapes_with_name_differences"] = len(cd)
         c.coverage["name_differences"] = len(diffs)
         fresh = [d for d in diffs if not any(repr(nm) in d for nm in reported)]
         if fresh:
